@@ -29,7 +29,7 @@ def set_tz(name):
 
 class Batch:
     """collects driver lines with the real code's answer for each"""
-    def __init__(self): self.lines, self.reals, self.meta = [], [], []
+    def __init__(self): self.lines, self.reals, self.meta, self.stream_diffs, self.streamed = [], [], [], [], 0
     def add(self, line, real, meta):
         assert "\n" not in line
         self.lines.append(line); self.reals.append(real); self.meta.append(meta)
@@ -183,6 +183,19 @@ def stream_cases(ctx, B, quick):
         real = G.real_w(S, ("float",), v)
         B.add("w 8 float | %s" % G.show_val(("float",), v), real, ("w", "float"))
         B.add("r 8 float | %s" % real[3:], G.real_r(S, ("float",), G.unhx(real[3:])), ("r", "float"))
+    # boundary lengths (every bit of the length prefix is exercised)
+    for n in [127, 128, 255, 256, 32767, 32768, 65534, 65535]:
+        for t, v in [(("qbuffer",), bytes([n & 255]) * n), (("buffer",), bytes([n & 255]) * (n + 1)), (("string",), "a" * (n - 1) if n > 1 else "")]:
+            S = G.make_settings()
+            real = G.real_w(S, t, v)
+            B.add("w 8 %s | %s" % (G.show_ty(t), G.show_val(t, v)), real, ("w-boundary", t[0]))
+            if real.startswith("ok "):
+                rr = G.real_r(S, t, G.unhx(real[3:]) + b"\x05")
+                B.add("r 8 %s | %s" % (G.show_ty(t), real[3:] + "05"), rr, ("r-boundary", t[0]))
+                if rr != "ok " + G.show_val(t, v) + " | 05" and oracle_fail < 10:
+                    oracle_fail += 1
+                    ctx.violation("stream-roundtrip:%s:len=%d" % (t[0], len(v)), "read(write(x) ++ rest) != (x, rest) on the real streams at a boundary length",
+                                  {"type": t[0], "length": len(v), "read_back": rr[:200], "how": "StreamOut/StreamIn %s of %d bytes/chars" % (t[0], len(v))})
     # values outside the ranges: the writer must fail the same way in model and code
     for t, v in OUT_OF_RANGE:
         for pid_size in (4, 8):
@@ -406,14 +419,31 @@ def datetime_cases(ctx, B, quick):
                 days.add(datetime.date(y, m, dd).toordinal() + 305)
         days = sorted(days)
     else:
-        days = range(first, last + 1)
+        # every day of the years 1970..9999 (the property's range) plus a sample of the earlier ones
+        days = sorted({rng.randint(first, 719467) for _ in range(100000)} | set(range(first, first + 1000))) + list(range(719468, last + 1))
     ctx.extra["civil_days_compared"] = len(days)
-    ctx.extra["civil_days_exhaustive"] = not quick
-    prev = None
+    ctx.extra["civil_days_exhaustive_1970_9999"] = not quick
+    # streamed in chunks (3 million days do not fit comfortably in one batch)
+    drv = ctx.driver()
+    chunk, CH = [], 250000
+    def flush():
+        lines, reals = [], []
+        for z in chunk:
+            d = datetime.date.fromordinal(z - 305)
+            lines.append("dt.civil %d" % z); reals.append("ok %d %d %d" % (d.year, d.month, d.day))
+            lines.append("dt.days %d %d %d" % (d.year, d.month, d.day)); reals.append("ok %d" % z)
+        outs = drv.batch(lines)
+        for line, real, model in zip(lines, reals, outs):
+            if real != model: B.stream_diffs.append((line, real, model, ("dt.civil", None)))
+        ctx.case(key=None, nontrivial=False, tag="dt.civil/dt.days:ok", n=len(lines))
+        # distinct days are distinct cases by construction; in the thorough tier only every 10th is recorded (conservative count)
+        ctx.distinct.update(("civil", z) for z in (chunk if quick else chunk[::10]))
+        B.streamed += len(lines)
+        del chunk[:]
     for z in days:
-        d = datetime.date.fromordinal(z - 305)
-        B.add("dt.civil %d" % z, "ok %d %d %d" % (d.year, d.month, d.day), ("dt.civil", None))
-        B.add("dt.days %d %d %d" % (d.year, d.month, d.day), "ok %d" % z, ("dt.days", None))
+        chunk.append(z)
+        if len(chunk) >= CH: flush()
+    if chunk: flush()
     # invalid calendar fields -> ValueError; time zones
     saved = os.environ.get("TZ")
     try:
@@ -497,10 +527,10 @@ def gen_url(rng, safe=True):
     for _ in range(rng.choice([0, 1, 2, 3, 5, 8])):
         r = rng.random()
         if r < 0.35:
-            k = rng.choice(common.StationURL.int_params)
+            k = rng.choice(MODEL_INT)
             v = rng.choice([0, 1, 2, 3, 65535, 1 << 32, (1 << 64) - 1, -1, rng.randint(0, 100000)]) if rng.random() < 0.7 else str(rng.randint(0, 99999))
         elif r < 0.6:
-            k = rng.choice(common.StationURL.str_params)
+            k = rng.choice(MODEL_STR)
             v = rng.choice(["1.2.3.4", "192.168.0.1", "example.com", word(0, 12)]) if rng.random() < 0.8 else rng.randint(0, 999)
         else:
             k, v = word(), (word(0, 8) if rng.random() < 0.8 else rng.randint(-5, 5))
@@ -512,10 +542,28 @@ def gen_url(rng, safe=True):
     return u
 
 
+# fixed lists (not read from the code under test): the parameters the Lean model knows, and the documented subset
+# (docs/reference/nex/common.md: "The following parameters are currently valid")
+MODEL_STR = ["address", "Uri", "Rsa", "Ra", "Ntrpa"]
+MODEL_INT = ["port", "stream", "sid", "PID", "CID", "type", "RVCID", "natm", "natf", "upnp", "pmp", "probeinit", "PRID",
+             "fastproberesponse", "NodeID", "R", "Rsp", "Rp", "Tpt", "Pl", "Ntrpp"]
+DOCUMENTED = ["address", "Rsa", "port", "stream", "sid", "PID", "CID", "type", "RVCID", "natm", "natf", "upnp", "pmp", "probeinit", "PRID", "Rsp"]
+
+
 def url_cases(ctx, B, quick):
     rng = ctx.rng
     fails = 0
-    fields = common.StationURL.str_params + common.StationURL.int_params + ["nope", "Port", ""]
+    fields = MODEL_STR + MODEL_INT + ["nope", "Port", ""]
+    # typed access of every known parameter on a URL that does not define it: the typed default, never KeyError
+    u0 = common.StationURL("prudp")
+    for f in MODEL_STR + MODEL_INT:
+        try: greal = "ok " + show_pval(u0[f])
+        except Exception as e: greal = "err " + G.exc_name(e)
+        B.add("url.get %s %s" % (G.show_str(f), show_url(u0)), greal, ("url.get-default", None))
+        want = "ok " + (G.show_str("") if f in MODEL_STR else "i0")
+        if greal != want:
+            ctx.violation("stationurl-typed-access:%s" % f, "typed access to the %s parameter %r gives %s instead of the typed default" % (
+                "documented" if f in DOCUMENTED else "known", f, greal), {"field": f, "got": greal, "want": want, "how": "common.StationURL('prudp')[field]"})
     for i in range(1500 if quick else 30000):
         safe = rng.random() < 0.7
         u = gen_url(rng, safe)
@@ -568,7 +616,7 @@ def url_cases(ctx, B, quick):
             p, real = None, "err " + G.exc_name(e)
         B.add("url.parse " + G.show_str(s), real, ("url.parse-raw", None))
         if p is not None:
-            for f in common.StationURL.int_params[:9] + ["address"]:
+            for f in MODEL_INT[:9] + ["address"]:
                 try: greal = "ok " + show_pval(p[f])
                 except Exception as e: greal = "err " + G.exc_name(e)
                 B.add("url.get %s %s" % (G.show_str(f), show_url(p)), greal, ("url.get-raw", None))
@@ -610,7 +658,7 @@ def run(ctx):
         prefix = [l for l in B.lines[:i] if l.startswith("errtab.add ")] if i else []
         o = drv.batch(prefix + B.lines[i:i + CH])
         outs += o[len(prefix):]
-    diffs = []
+    diffs = list(B.stream_diffs)
     for line, real, model, m in zip(B.lines, B.reals, outs, B.meta):
         kind = m[0]
         nontrivial = not (kind in ("r-rand",) and model.startswith("err"))
@@ -620,8 +668,8 @@ def run(ctx):
         if real != model:
             if kind == "errtab.check" and ctx.violations: continue
             diffs.append((line, real, model, m))
-    ctx.traces_validated = len(B.lines)
-    ctx.extra["correspondence_lines"] = len(B.lines)
+    ctx.traces_validated = len(B.lines) + B.streamed
+    ctx.extra["correspondence_lines"] = len(B.lines) + B.streamed
     ctx.extra["correspondence_diffs"] = len(diffs)
     if diffs and not ctx.violations:
         line, real, model, m = diffs[0]
